@@ -733,6 +733,19 @@ class SshCertConstraintVariant(VariantParsable):
 
 class SshCertificateBase(object):
     @classmethod
+    def _parse_signature_key(cls, parser):
+        # the signing (CA) key is a plain public key; OpenSSH does not support chained certificates, and following a
+        # chain of certificates nested in each other's signature key would recurse as deep as the peer likes
+        key_parser = ParserBinary(parser.unparsed)
+        key_parser.parse_bytes('signature_key', 4)
+        algorithm_parser = ParserBinary(key_parser['signature_key'])
+        algorithm_parser.parse_bytes('algorithm', 4)
+        if b'-cert-v0' in bytes(algorithm_parser['algorithm']):
+            raise InvalidValue(bytes(algorithm_parser['algorithm']), cls, 'signature_key')
+
+        parser.parse_parsable('signature_key', SshHostPublicKeyVariant, 4)
+
+    @classmethod
     @abc.abstractmethod
     def _parse_host_key_algorithm(cls, parsable):
         raise NotImplementedError()
@@ -806,7 +819,7 @@ class SshHostCertificateV00Base(ParsableBase, SshCertificateBase):  # pylint: di
         parser.parse_parsable('constraints', SshCertConstraintVector)
         parser.parse_bytes('nonce', 4)
         parser.parse_bytes('reserved', 4)
-        parser.parse_parsable('signature_key', SshHostPublicKeyVariant, 4)
+        cls._parse_signature_key(parser)
         parser.parse_parsable('signature', SshCertSignature, 4)
 
     def _compose_host_cert_params(self, composer):
@@ -977,7 +990,7 @@ class SshHostCertificateV01Base(ParsableBase, SshCertificateBase):  # pylint: di
         parser.parse_parsable('critical_options', SshCertCriticalOptionVector)
         parser.parse_parsable('extensions', SshCertExtensionVector)
         parser.parse_bytes('reserved', 4)
-        parser.parse_parsable('signature_key', SshHostPublicKeyVariant, 4)
+        cls._parse_signature_key(parser)
         parser.parse_parsable('signature', SshCertSignature, 4)
 
     def _compose_host_cert_params(self, composer):
